@@ -98,6 +98,62 @@ theorem library_history_independent [Inhabited V] (cells : Cell → V)
     · rw [hs] at h'; cases h'
     · exact h'
 
+/-! ### the caller's own objects (arguments it keeps, passes again, derives later arguments from) -/
+
+/-- The one kind of caller-owned state the library does touch: the *binding* of a raster's array
+    (`x.data = x.data.rechunk(..)`, `x.values = x.values.astype(float64)`, and `zonal.apply`, in place by
+    contract: "Change the agg content").  Nobody *reads* a binding in the model: what a call sees of its
+    arguments is part of `A`, and the harness takes the argument snapshot at call time. -/
+def toleratedCallerWrites : List Cell := [.param "binding"]
+
+/-- who re-binds an argument's array: `zonal.apply` (by contract), `viewshed` (float64 cast),
+    `validate_arrays` and its users / dask proximity / dask zonal (re-chunk: values, coords, attrs unchanged) -/
+def knownRebinders : List String :=
+  ["zonal.apply", "viewshed.viewshed", "utils.validate_arrays", "zonal.stats", "zonal.crosstab",
+   "proximity.proximity", "proximity.allocation", "proximity.direction",
+   "multispectral.arvi", "multispectral.ebbi", "multispectral.evi", "multispectral.gci", "multispectral.nbr",
+   "multispectral.nbr2", "multispectral.ndmi", "multispectral.ndvi", "multispectral.savi", "multispectral.sipi"]
+
+/-- **no_caller_state_written.**  No function of the library writes to the attrs, coordinates, name, cells or
+    any other attribute of an object the caller passed in (`agg.attrs['res'] = ...`, `raster[x] = ...`): such a
+    write outlives the call -- xarray carries attrs through slicing / `assign_coords` -- and a later call on
+    that object, or on one derived from it, would see it. -/
+theorem no_caller_state_written :
+    Gen.allSummaries.all (fun σ => σ.prog.writes.all fun c => !c.callerOwned || toleratedCallerWrites.contains c) = true := by
+  decide +kernel
+
+/-- the array binding is re-pointed by the known functions only -/
+theorem only_known_rebinders :
+    Gen.allSummaries.all (fun σ => !σ.prog.writes.contains (.param "binding") || knownRebinders.contains σ.name) = true := by
+  decide +kernel
+
+/-- hence the volatile set holds no caller-owned cell but the binding ... -/
+theorem volatile_caller_cells :
+    Gen.volatile.all (fun c => !c.callerOwned || toleratedCallerWrites.contains c) = true := by decide +kernel
+
+/-- **caller_objects_untouched.**  ... and after *any* history of library calls (any arguments) the attrs,
+    coordinates, name and cells of every object the caller holds are what they were: an argument derived
+    from them (a strided view, rescaled coordinates) equals the argument derived in a fresh interpreter, and
+    `library_history_independent` (whose calls may *read* these cells) applies to the call made with it. -/
+theorem caller_objects_untouched [Inhabited V] (cells : Cell → V)
+    (h : List (Summary × Sem (String → V) V R × (String → V))) (hh : ∀ p ∈ h, p.1 ∈ Gen.allSummaries)
+    (c : Cell) (hc : c.callerOwned = true) (hb : toleratedCallerWrites.contains c = false) :
+    (runHist (Lib.fresh cells) (h.map fun p => p.1.call p.2.1 p.2.2)).cells c = cells c := by
+  have hv : Gen.volatile.contains c = false := by
+    cases hcv : Gen.volatile.contains c with
+    | false => rfl
+    | true =>
+      have := (List.all_eq_true.mp volatile_caller_cells) c (List.contains_iff_mem.mp hcv)
+      rw [hc, hb] at this
+      cases this
+  have hi := runHist_inv Gen.volatile cells (h.map fun p => p.1.call p.2.1 p.2.2) (Lib.fresh cells)
+    (by
+      intro p hp
+      rcases List.mem_map.mp hp with ⟨q, hq, rfl⟩
+      exact (List.all_eq_true.mp all_confined) q.1 (hh q hq))
+    (fresh_inv Gen.volatile cells)
+  exact hi.cells_eq c hv
+
 /-! ### seeded generators -/
 
 /-- a call through a summary sees only the argument aspects listed in `deps` -/
@@ -247,6 +303,17 @@ example : (step (runHist (Lib.fresh fun _ => 0) [⟨staleClosure, demoArgs 1, de
 /-- ... while the same closure created per call (what proximity does) is accepted -/
 example : noStale [] [] (.op (.jit { name := "m.f", fresh := true, cache := false, caps := [.arg "seed"] }) .nil) = true := by
   decide
+
+/-- caller-owned state: a summary that stamps its argument's attrs is rejected, and the functions reading
+    `agg.attrs` (slope through `get_dataarray_resolution`) really have that read in their summary, so that
+    such a write makes them stale -/
+example : (Prog.op (.mutate (.param "attrs")) .nil).writes.all
+    (fun c => !c.callerOwned || toleratedCallerWrites.contains c) = false := by decide
+example : Gen.summary_slope_slope.prog.exposed.contains (.param "attrs") = true := by decide +kernel
+example : noStale [.param "attrs"] [] Gen.summary_slope_slope.prog = false := by decide +kernel
+/-- a module-level generator object: drawing from it without re-seeding it in the same call is stale -/
+example : noStale [.table "m.G"] [] (.op (.draw (.table "m.G")) .nil) = false ∧
+    noStale [.table "m.G"] [] (.op (.seed (.table "m.G")) (.op (.draw (.table "m.G")) .nil)) = true := by decide
 
 /-- kernels: a racy parallel kernel is rejected, the facts of /repo's `_apply_numpy` are accepted only
     because it is sequential -/
